@@ -2,11 +2,11 @@
 from . import common, render
 
 
-def run_focus(out, pid, focus, tier, nquick, nthorough, rule, classify, max_nodes=6, opts=None):
+def run_focus(out, pid, focus, tier, nquick, nthorough, rule, classify, max_nodes=6, opts=None, extra_docs=()):
     wd = common.workdir(pid.lower())
     try:
         recs, texts, verdicts = render.run_render(out, pid, focus, tier, nquick, nthorough, wd=wd,
-                                                  max_nodes=max_nodes, opts=opts)
+                                                  max_nodes=max_nodes, opts=opts, extra_docs=extra_docs)
         cov = out.coverage
         cov["rule"] = rule
         for (svg, res), v in zip(texts, verdicts):
